@@ -23,12 +23,12 @@ SYM_ORDER = {'': 1, '-': 1, '=': 2, '#': 3, '$': 4, '.': 0}
 LABELS = ['', '', 'a', 'A', 'ab', 'A1', 'x2', '1A', '1', '12', 'b']
 KINDS = ['$', '$', '>', '<', '!']
 
-FUZZ = dict(campaigns=8, runs=2500)
+FUZZ = dict(campaigns=8, runs=6000)
 
 
 def budget(tier):
     if tier == 'thorough':
-        return dict(examples=5000, shards=16, procs=16)
+        return dict(examples=12000, shards=16, procs=16)
     return dict(examples=1500, shards=4, procs=4)
 
 
